@@ -2609,10 +2609,11 @@ class Tree:
         max_branch_length = max(
             1, self.time(root) - np.min(self.tree_sequence.nodes_time)
         )
-        max_label_size = math.ceil(math.log10(self.tree_sequence.num_nodes))
-        single_node_size = (
-            5 + max_label_size + math.ceil(math.log10(max_branch_length)) + precision
-        )
+        # Every node can contribute "(", ")", "n<id>", ":", the digits of the integer
+        # part of its branch length, ".", `precision` decimals and a "," (or ";").
+        max_label_size = len(str(self.tree_sequence.num_nodes))
+        num_integer_digits = len(str(int(max_branch_length)))
+        single_node_size = 6 + max_label_size + num_integer_digits + precision
         buffer_size = 1 + single_node_size * self.tree_sequence.num_nodes
         return self._ll_tree.get_newick(
             precision=precision,
